@@ -195,37 +195,75 @@ theorem C19_cwd_restored (l : Load) (s : St) : (runLoad l s).st = s ∧ (runLoad
   have := (runItem_spec (.sub l.ref l.items) s).1
   exact ⟨this, by rw [runLoad, this]⟩
 
+/-- the same for a sequence of command-line arguments / config entries -/
 theorem C19_cwd_restored_items (items : List Item) (s : St) : (runItems items s).st = s :=
   (runItems_spec items s).1
 
-/-- **C19_rel_to_cfg**: the path values resolved by the stateful loader (chdir on
-entry, restore on exit) are a prefix of — and, when nothing fails, exactly — the
-static assignment "each path value is joined to the directory of its innermost
-enclosing config file"; loading fails iff the program contains a failing item -/
-theorem C19_rel_to_cfg (l : Load) (s : St) :
-    (runLoad l s).trace <+: specItems (normAbs (cfgDir s.cwd l.ref)) l.items ∧
-    ((runLoad l s).ok = true → (runLoad l s).trace = specItems (normAbs (cfgDir s.cwd l.ref)) l.items) ∧
-    (runLoad l s).ok = noFailItems l.items := by
+/- Full statement of C19_rel_to_cfg (FALSE of the current code, witness below): loading succeeds
+   whenever no item fails, and then resolves exactly the static assignment:
+   theorem C19_rel_to_cfg (items) (s) : (runItems items s).ok = noFailItems items ∧
+       ((runItems items s).ok = true → (runItems items s).trace = specItems s.cwd items)  -/
+
+/-- a list file named by a relative spelling with a directory part is rejected
+although nothing in the program fails (the spelling is resolved a second time
+from inside the file's own directory) -/
+theorem C19_rel_to_cfg_fails_list_file :
+    let prog := [Item.listFile "d/list.txt".toList ["t.txt".toList]]
+    noFailItems prog = true ∧ (runItems prog ⟨"/fix/c".toList, none⟩).ok = false := by decide
+
+theorem C19_rel_to_cfg_full_false :
+    ¬ (∀ (items : List Item) (s : St), (runItems items s).ok = noFailItems items) := by
+  intro h
+  have := h [Item.listFile "d/list.txt".toList ["t.txt".toList]] ⟨"/fix/c".toList, none⟩
+  revert this
+  decide
+
+/-- **C19_rel_to_cfg (partial)**: the path values resolved by the stateful loader
+(chdir on entry, restore on exit) are a prefix of — and, when the load succeeds,
+exactly — the static assignment "each path value, and each nested config file,
+is joined to the directory of its innermost enclosing config file"; the load
+succeeds iff no item fails, provided every list file is named by a spelling that
+survives the second resolution (`stableItems`: absolute, or no directory part) -/
+theorem C19_rel_to_cfg_partial (items : List Item) (s : St) :
+    (runItems items s).trace <+: specItems s.cwd items ∧
+    ((runItems items s).ok = true → (runItems items s).trace = specItems s.cwd items) ∧
+    (stableItems s.cwd items = true → (runItems items s).ok = noFailItems items) ∧
+    (runItems items s).ok = (noFailItems items && stableItems s.cwd items) := by
+  have h := runItems_spec items s
+  refine ⟨h.2.1, h.2.2.1, ?_, h.2.2.2⟩
+  intro hs
+  rw [h.2.2.2, hs, Bool.and_true]
+
+/-- the same for one config file given by its path (`parse_path`, `--cfg`) -/
+theorem C19_rel_to_cfg_load (l : Load) (s : St) :
+    (runLoad l s).trace <+: resolve l.ref s.cwd :: specItems (normAbs (cfgDir s.cwd l.ref)) l.items ∧
+    ((runLoad l s).ok = true → (runLoad l s).trace = resolve l.ref s.cwd :: specItems (normAbs (cfgDir s.cwd l.ref)) l.items) ∧
+    (runLoad l s).ok = (noFailItems l.items && stableItems (normAbs (cfgDir s.cwd l.ref)) l.items) := by
   have h := runItem_spec (.sub l.ref l.items) s
-  simp only [specItem, noFailItem] at h
+  simp only [specItem, noFailItem, stableItem] at h
   exact ⟨h.2.1, h.2.2.1, h.2.2.2⟩
+
+/-- the hypothesis is satisfiable by non-trivial programs: absolute and bare spellings are stable -/
+example : stableItems "/fix/c".toList
+    [.listFile "/fix/c/d/list.txt".toList ["t".toList], .sub "../b/m.yaml".toList [.listFile "l.txt".toList ["u".toList]]] = true := by decide
 
 /-- what the static assignment says about one value: the base is used only when the spelling is relative -/
 theorem C19_spec_entry (base rel : P) :
     specItem base (.path rel) = [⟨rel, if isAbs (stripFileScheme rel) then stripFileScheme rel else join base (stripFileScheme rel), base⟩] := by
-  simp [specItem, mkPath]
+  simp [specItem, resolve, mkPath]
 
 /-- in particular a value that follows a nested config is resolved against the outer file's directory again -/
-theorem C19_after_sub (base ref rel : P) (items : List Item) (s : St) (h : noFailItems items = true) :
-    (runItems [.sub ref items, .path rel] ⟨base, s.cpd⟩).trace =
-      specItems (normAbs (cfgDir base ref)) items ++ [⟨rel, (mkPath rel rel base).absolute, base⟩] := by
-  have h1 := runItems_spec [.sub ref items, .path rel] ⟨base, s.cpd⟩
-  have hok : (runItems [.sub ref items, .path rel] ⟨base, s.cpd⟩).ok = true := by
-    rw [h1.2.2.2]; simp [noFailItems, noFailItem, h]
+theorem C19_after_sub (base ref rel : P) (items : List Item) (cpd : Option P)
+    (h : noFailItems items = true) (hs : stableItems (normAbs (cfgDir base ref)) items = true) :
+    (runItems [.sub ref items, .path rel] ⟨base, cpd⟩).trace =
+      resolve ref base :: specItems (normAbs (cfgDir base ref)) items ++ [resolve rel base] := by
+  have h1 := runItems_spec [.sub ref items, .path rel] ⟨base, cpd⟩
+  have hok : (runItems [.sub ref items, .path rel] ⟨base, cpd⟩).ok = true := by
+    rw [h1.2.2.2]; simp [noFailItems, noFailItem, stableItems, stableItem, h, hs]
   rw [h1.2.2.1 hok]
   simp [specItems, specItem]
 
-/-- non-vacuity: three levels in different directories, a failure in the innermost one -/
+/-- non-vacuity: three levels in different directories -/
 def demo : Load :=
   ⟨"../B/top.yaml".toList,
    [.path "x.txt".toList,
@@ -233,10 +271,12 @@ def demo : Load :=
     .path "/abs/w".toList]⟩
 
 example : (runLoad demo ⟨"/fix/A".toList, none⟩).trace.map (fun r => String.ofList r.abs) =
-    ["/fix/B/x.txt", "/fix/C/y.txt", "/D/z", "/fix/C/../y2", "/abs/w"] := by decide
+    ["/fix/A/../B/top.yaml", "/fix/B/x.txt", "/fix/B/../C/mid.yaml", "/fix/C/y.txt", "/D/in.yaml", "/D/z", "/fix/C/../y2", "/abs/w"] := by decide
 example : (runLoad demo ⟨"/fix/A".toList, none⟩).trace.map (fun r => String.ofList r.base) =
-    ["/fix/B", "/fix/C", "/D", "/fix/C", "/fix/B"] := by decide
+    ["/fix/A", "/fix/B", "/fix/B", "/fix/C", "/fix/C", "/D", "/fix/C", "/fix/B"] := by decide
+/-- a failure two levels down: the exception propagates, the state is restored -/
 example : (runLoad ⟨"c.yaml".toList, [.path "x".toList, .sub "s/d.yaml".toList [.path "y".toList, .fail], .path "z".toList]⟩ ⟨"/fix/A".toList, some "/q".toList⟩)
-    = ⟨false, [⟨"x".toList, "/fix/A/x".toList, "/fix/A".toList⟩, ⟨"y".toList, "/fix/A/s/y".toList, "/fix/A/s".toList⟩], ⟨"/fix/A".toList, some "/q".toList⟩⟩ := by decide
+    = ⟨false, [resolve "c.yaml".toList "/fix/A".toList, resolve "x".toList "/fix/A".toList, resolve "s/d.yaml".toList "/fix/A".toList,
+               resolve "y".toList "/fix/A/s".toList], ⟨"/fix/A".toList, some "/q".toList⟩⟩ := by decide
 
 end Jap.Props.C19
